@@ -563,6 +563,95 @@ fn ob_c10_flat_product_n3(t: u8, vk: u8, a: usize, e: usize, fc: bool, lc: u8, l
     flat_product(t, vk, a, e, fc, lc, lo, hi, 3, c1, c2, c3)
 }
 
+// an optional repetition (lower bound 0) that is ABSENT: the neighbours L and R (either may be missing,
+// not both) then form the matched path by themselves. Only the two edge cases are registered: with BOTH
+// neighbours symbolic (three terms) Kani gave no verdict in 20 min outside the known region.
+fn flat_absent(
+    has_l: bool, t1: u8, vk1: u8, n1: usize, e1: usize, fc1: bool, lc1: u8, c1: usize,
+    t: u8, vk: u8, a: usize, e: usize, fw: u8, lcw: u8, cw: usize, hi: u8,
+    has_r: bool, t2: u8, vk2: u8, n2: usize, e2: usize, f2: u8, lc2: u8, c2: usize,
+) {
+    vassume!(has_l || has_r);
+    vassume!(t1 <= 4 && flat_valid(vk1, n1, e1) && lc1 <= 2 && c1 <= CMAX);
+    vassume!(t <= 3 && flat_valid(vk, a, e) && fw <= 2 && lcw <= 2 && cw <= CMAX && hi >= 1 && hi <= 4);
+    vassume!(t2 <= 4 && flat_valid(vk2, n2, e2) && f2 <= 2 && lc2 <= 2 && c2 <= CMAX);
+    let l = SeparatedTerm(mk_termination(t1), flat_tv(vk1, n1, e1));
+    let w = SeparatedTerm(mk_termination(t), flat_tv(vk, a, e));
+    let r = SeparatedTerm(mk_termination(t2), flat_tv(vk2, n2, e2));
+    vassume!(!has_l || rep(l.0, &l.1, fc1, lc1, c1 as u128));
+    vassume!(rep(w.0, &w.1, fw != 0, lcw, cw as u128));
+    vassume!(!has_r || (rep(r.0, &r.1, f2 != 0, lc2, c2 as u128) && (t2 != 4 || f2 == 2)));
+    // the rule checker admits the expression with the body present (T6): no two boundaries adjacent
+    vassume!(!has_l || lc1 == 0 || fw == 0);
+    vassume!(!has_r || lcw == 0 || f2 == 0);
+    // the matched path without the body is canonical: no two boundaries adjacent, no trailing separator
+    vassume!(!(has_l && has_r) || lc1 == 0 || f2 == 0);
+    // (a tree wildcard that is followed by something in the expression matches `/` or `/x/.../`: without
+    // the body the path would end in its trailing separator)
+    vassume!(if has_r { lc2 != 1 } else { lc1 == 0 });
+    let upper = match hi {
+        1 => Some(1),
+        2 => Some(2),
+        3 => Some(3),
+        _ => None,
+    };
+    let branch = mk_repetition(0, upper);
+    let p = match variance::finalize::<Depth>(&branch, Composition::Conjunctive(w)) {
+        Composition::Conjunctive(p) => p,
+        Composition::Disjunctive(d) => {
+            core::mem::forget(d);
+            panic!("C10 product of a conjunctive term is conjunctive")
+        },
+    };
+    core::mem::forget(branch);
+    let term = match (has_l, has_r) {
+        (true, true) => cj(cj(l, p), r),
+        (true, false) => cj(l, p),
+        _ => cj(p, r),
+    };
+    let count: u128 = match (has_l, has_r) {
+        (true, true) => c1 as u128 + c2 as u128 - if lc1 == 0 && f2 == 0 { 1 } else { 0 },
+        (true, false) => c1 as u128,
+        _ => c2 as u128,
+    };
+    vcover!(hi == 4);
+    vcover!(hi == 1 && vk == 0);
+    assert!(mem(&term.finalize(), count), "C10 the depth reported around an optional repetition contains the depth of the match without it");
+}
+
+//@ob C10.flat.absent.last
+//@ props: C10
+//@ kind: bounded(repetition upper bound enumerated <= 3 or open; the terms symbolic, every variance shape, counts up to 2^40)
+//@ fns: src/token/variance/invariant/term.rs::SeparatedTerm::product src/token/variance/invariant/term.rs::SeparatedTerm::conjunction src/token/variance/invariant/mod.rs::SeparatedTerm::finalize src/token/variance/mod.rs::TokenVariance::product
+//@ pre: an optional repetition `<w:0,h>` at the end, after a left neighbour L, all terms with ghost facts satisfying rep; the expression is admitted with the body present (T6) and the path matched WITHOUT the body is canonical
+//@ post: the finalised REAL term contains the component count of the neighbours alone -- zero repetitions are a match too
+fn ob_c10_flat_absent_last(
+    t1: u8, vk1: u8, n1: usize, e1: usize, fc1: bool, lc1: u8, c1: usize,
+    t: u8, vk: u8, a: usize, e: usize, fw: u8, lcw: u8, cw: usize, hi: u8,
+) {
+    flat_absent(true, t1, vk1, n1, e1, fc1, lc1, c1, t, vk, a, e, fw, lcw, cw, hi, false, 0, 0, 0, 0, 0, 0, 0)
+}
+//@ob C10.flat.absent.first
+//@ props: C10
+//@ kind: bounded(repetition upper bound enumerated <= 3 or open; the terms symbolic, every variance shape, counts up to 2^40)
+//@ fns: src/token/variance/invariant/term.rs::SeparatedTerm::product src/token/variance/invariant/term.rs::SeparatedTerm::conjunction src/token/variance/invariant/mod.rs::SeparatedTerm::finalize src/token/variance/mod.rs::TokenVariance::product
+//@ pre: an optional repetition `<w:0,h>` at the beginning, before a right neighbour R, all terms with ghost facts satisfying rep; the expression is admitted with the body present (T6) and the path matched WITHOUT the body is canonical
+//@ post: the finalised REAL term contains the component count of the neighbours alone -- zero repetitions are a match too
+fn ob_c10_flat_absent_first(
+    t: u8, vk: u8, a: usize, e: usize, fw: u8, lcw: u8, cw: usize, hi: u8,
+    t2: u8, vk2: u8, n2: usize, e2: usize, f2: u8, lc2: u8, c2: usize,
+) {
+    flat_absent(false, 0, 0, 0, 0, false, 0, 0, t, vk, a, e, fw, lcw, cw, hi, true, t2, vk2, n2, e2, f2, lc2, c2)
+}
+fn region_c10_flat_absent_first(
+    _t: u8, _vk: u8, _a: usize, _e: usize, fw: u8, _lcw: u8, _cw: usize, _hi: u8,
+    _t2: u8, _vk2: u8, _n2: usize, _e2: usize, f2: u8, _lc2: u8, _c2: usize,
+) -> bool {
+    // the path without the body begins with R's boundary (the root separator or a tree wildcard), which
+    // the body's text had preceded
+    fw == 0 && f2 != 0
+}
+
 // ---------------------------------------------------------------------------------------------
 // C10: repetition at term level
 // ---------------------------------------------------------------------------------------------
